@@ -32,14 +32,14 @@ macro_rules! h_offset_clone {
         } }
     };
 }
-// @h props=C01,C04,C16 fuc=OffsetArc::clone,OffsetArc::clone_arc,OffsetArc::with_arc
+// @h props=C01,C04,C16,C03,C08,C09 fuc=OffsetArc::clone,OffsetArc::clone_arc,OffsetArc::with_arc
 h_offset_clone!(c01_offset_clone__tr16, Tr16, Tr16::new());
 // @h props=C01,C04,C16 fuc=OffsetArc::clone,OffsetArc::clone_arc,OffsetArc::with_arc
 h_offset_clone!(c01_offset_clone__zst, Z, Z);
 // @h props=C01,C04,C16 tier=thorough fuc=OffsetArc::clone,OffsetArc::clone_arc,OffsetArc::with_arc
 h_offset_clone!(c01_offset_clone__s1, S1, S1::any());
 
-// @h props=C01,C04,C16 fuc=OffsetArc::clone_arc,OffsetArc::with_arc
+// @h props=C01,C04,C16,C03,C08,C09 fuc=OffsetArc::clone_arc,OffsetArc::with_arc
 gproof! { fn c01_offset_clone_arc__tr8() {
     let n = any_count();
     let a = mk(Tr8::new(), n);
